@@ -207,6 +207,35 @@ theorem reset_channel_follows {α : Type} (C : Cls α) (B : Str) (s s' : St α) 
       resolve s'.var (some n) (some c) = some (if nv.wasSet then nv.value else s.var.value) :=
   resetChannel_follows C B s s' n c h
 
+/-! ### a validator that depends on another variable (conf.SocketTimeout vs supybot.drivers.poll) -/
+
+/-- `SocketTimeout.setValue(v)` while `supybot.drivers.poll = pn/pd`: the verdict is taken before
+anything is stored — either the value itself is accepted (`v ≥ poll`, `v ≥ 1`) or the outcome is a
+plain rejection; there is no "rejected but stored" outcome. -/
+theorem socket_timeout_verdict (pn pd : Nat) (v : Int) :
+    (socketTimeoutSetValue pn pd v = .ok v ∧ (pn : Int) ≤ v * pd ∧ 1 ≤ v) ∨
+    (socketTimeoutSetValue pn pd v = .error ∧ (v * pd < pn ∨ v < 1)) := by
+  unfold socketTimeoutSetValue
+  by_cases h : v * (pd : Int) < (pn : Int) ∨ v < 1
+  · right; rw [if_pos h]; exact ⟨rfl, h⟩
+  · left
+    rw [if_neg h]
+    have h1 : ¬ (v * (pd : Int) < (pn : Int)) := fun x => h (Or.inl x)
+    have h2 : ¬ (v < 1) := fun x => h (Or.inr x)
+    refine ⟨?_, by omega, by omega⟩
+    simp only [IntClass.setValue]
+    rw [if_neg (by omega), if_neg (by omega)]
+
+/-- … and, being an ordinary class for the value tree, a text it rejects (for the current value of
+the other variable) leaves the whole tree as it was: instance of `reject_atomic`. -/
+theorem socket_timeout_reject_atomic (pr : Char → Bool) (pn pd : Nat) (dflt : Val) (B : Str) (s : St Val)
+    (text : Str) (h : socketTimeoutSet pn pd text = .error) :
+    (setText (ClassId.cls pr (.sock pn pd) dflt) B s .base text).1 = s := by
+  unfold setText
+  simp only [Var.reach, ClassId.cls, ClassId.set, h, SetRes.map]
+
+example : socketTimeoutSet 5 1 "3".toList = .error ∧ socketTimeoutSet 5 1 "7".toList = .ok 7 := by decide
+
 /-! ### the file always loads -/
 
 /-- the extracted `CONF_FILE_HEADER` consists of complete comment / blank lines -/
